@@ -601,6 +601,9 @@ func c05ParserTie(s *c05State) {
 		}
 		ptCompare(e, c, &res[i], m)
 	}
+	// the composed model bytes -> tree of soy_file_total_composed / soy_expr_total_composed (parsetie.go)
+	ptBytesTie(e, cases, res, s.modelBatch, 6)
+	ptFloatTie(e, s.modelBatch, 1500*e.scale)
 }
 
 func c05Dedup(l []string) []string {
